@@ -96,6 +96,19 @@ def one_repo(arg):
            "race_runs": 0, "inconc": []}
     try:
         m = G.random_model(rng, size=rng.choice(["small", "medium"]), hostile_names=rng.random() < 0.3)
+        if idx % 4 == 1:
+            # 30 versions of a 1200-entry directory (each tree ~45 KB) and some 40-70 KB commit messages: large objects
+            # that the batch reader delivers back to back
+            pool = m.pool
+            blobs = [pool.new_blob(3) for _ in range(40)]
+            prev = None
+            for v in range(30):
+                ents = [G.Entry(G.FILE, b"file-%05d-%s" % (j, b"x" * 8), blobs[(j * 7 + v * (j % 5 == 0)) % len(blobs)]) for j in range(1200)]
+                big = G.Tree(ents)
+                c = G.Commit(G.Tree([G.Entry(G.TREE, b"big", big), G.Entry(G.FILE, b"v", pool.new_blob(v + 1))]),
+                             [prev] if prev else [], cts=1500000000 + v, msg=(b"m%d " % v) * (1 + 9000 * (v % 3 == 0)) + b"\n")
+                prev = c
+            m.refs["refs/heads/bigtrees"] = prev
         m.bare = False
         # several sibling refgroups (and a nested pair) so that the order of their rows is part of the output
         m.config = "".join('[refgroup "%s"]\n\tinclude = %s\n' % (g, pat) for g, pat in [
